@@ -88,6 +88,9 @@ func genSettleScenario(r *kernel.Rand, prop string) *kernel.Scenario {
 		for i := 0; i < nreg; i++ {
 			pos := r.Intn(len(sc.Steps)) + 1
 			st := kernel.St("adv-register", "back", r.Range(1, 4), "delay_us", []int{0, 5, 50, 400, 3000}[r.Intn(5)], "async", r.Intn(2))
+			if kernel.NewRand(kernel.Derive(uint64(i), "honest-fail", int64(pos), int64(adv))).Bool(0.2) {
+				st.A["honest_fail"] = 1
+			}
 			sc.Steps = append(sc.Steps[:pos], append([]kernel.Step{st}, sc.Steps[pos:]...)...)
 		}
 	}
